@@ -498,7 +498,10 @@ func (e *env) runCase(cd caseDef) {
 	}
 
 	// threshold-1 valid partials of the unaltered object, by other shares, under the key the altered one claims
-	primed := primable[cd.alt] && claimVal != nil && verifrt.Intn("w", 3) == 2
+	// (content alterations - "flip:<field>" - are primed too: the target then has seen, verified and stored the
+	// AUTHENTIC object of the same duty and validator, by other shares, before the altered copy arrives; whatever
+	// it remembers about the authentic object must not vouch for the altered one)
+	primed := (primable[cd.alt] || strings.HasPrefix(cd.alt, "flip:")) && claimVal != nil && verifrt.Intn("w", 3) == 2
 	var primes [][]byte
 	if primed {
 		good := e.signingRoot(in.root(), dom, ver, gvr)
